@@ -115,7 +115,7 @@ DetermineStatus(s) ==
   ELSE IF ~(ts \subseteq {"SUCCEEDED", "SKIPPED", "FAILED_CONTINUE"}) THEN "RUNNING"
   ELSE IF "FAILED_CONTINUE" \in ts THEN "FAILED_CONTINUE" ELSE "SUCCEEDED"
 
-(* CompleteWorkflowHandler._determine_final_status; {} = not ready.  The STOPPED rule needs the DAG
+(* CompleteWorkflowHandler._determine_final_status.  The STOPPED rule needs the DAG
    (other branches incomplete?) and an override flag: both outcomes are admitted.  TERMINAL is always
    admitted: the handler gives up with it after max_stage_wait_retries re-queues. *)
 FinalCandidates ==
@@ -246,15 +246,17 @@ StartTaskCommit(w) ==         \* T[task NOT_STARTED -> RUNNING, mark, RunTask]; 
 
 CancelTargets(s) == {s} \cup {t \in TasksOf(s) : status[t] \in {"NOT_STARTED", "RUNNING"}}
 SeqOfTasks(S) == SelectSeq(prog.taskSeq, LAMBDA t : t \in S)
-CancelStageCommit(w) ==       \* T[open tasks + stage CANCELED, mark]; stage.canceled AFTER it; no task event at all
-  /\ cur[w].h = "CancelStage" /\ cur[w].pc = "run" /\ ~tx[w].open /\ WriterFree(w)
+CanceledTaskSeq(s) == SeqOfTasks(CancelTargets(s) \ {s})
+CancelStageCommit(w) ==       \* T[open tasks + stage CANCELED, mark]; stage.canceled AFTER it; as the code: no task event at all
+  /\ cur[w].h = "CancelStage" /\ cur[w].pc \in {"run", "appended"} /\ WriterFree(w)
   /\ cur[w].e \in Stages /\ status[cur[w].e] \notin CompleteSt
+  /\ IF Defect_NoTaskCancelEvent THEN ~tx[w].open      \* repaired: one task.completed(CANCELED) per cancelled task inside T
+                                  ELSE Len(tx[w].evs) = Len(CanceledTaskSeq(cur[w].e))
   /\ Write([e \in CancelTargets(cur[w].e) |-> "CANCELED"], "CancelStage")
-  /\ LET ts == SeqOfTasks(CancelTargets(cur[w].e) \ {cur[w].e})
-         tevs == IF Defect_NoTaskCancelEvent THEN <<>> ELSE [i \in DOMAIN ts |-> E("task.completed", ts[i], "CANCELED")]
-     IN SetCur(w, [cur[w] EXCEPT !.pc = "post", !.owes = tevs \o <<E("stage.canceled", cur[w].e, "")>>])
+  /\ ev' = ev \o tx[w].evs /\ tx' = [tx EXCEPT ![w] = [open |-> FALSE, evs |-> <<>>]]
+  /\ SetCur(w, [cur[w] EXCEPT !.pc = "post", !.owes = <<E("stage.canceled", cur[w].e, "")>>])
   /\ act' = Label("CancelStageCommit", w, TRUE)
-  /\ UNCHANGED <<prog, ev, tx, pend, bus, cnt>>
+  /\ UNCHANGED <<prog, pend, bus, cnt>>
 
 (* steps that set statuses without recording anything: JumpToStage (re-arm / skip / source), the
    StartStage give-up after max_stage_wait_retries, RunTask SUSPENDED and SignalStage resume,
@@ -278,19 +280,24 @@ ForceCommit(w, f, mk) ==
    publication deferred to TxnScope.pending) - {} if it appends none *)
 InTxnEvents(w) ==
   LET c == cur[w] IN
-  IF c.h = "CompleteTask" /\ c.e \in Tasks /\ status[c.e] = "RUNNING" THEN Range(TaskCompletionEvent(c.e, c.arg))
-  ELSE IF c.h = "CompleteStage" /\ c.e \in Stages /\ status[c.e] = "RUNNING"
+  IF c.h = "CompleteTask" /\ c.e \in Tasks /\ status[c.e] = "RUNNING" /\ tx[w].evs = <<>>
+     THEN Range(TaskCompletionEvent(c.e, c.arg))
+  ELSE IF c.h = "CompleteStage" /\ c.e \in Stages /\ status[c.e] = "RUNNING" /\ tx[w].evs = <<>>
           THEN Range(StageCompletionEvent(c.e, DetermineStatus(c.e)))
                \cup (IF c.rb /\ ~Defect_ErrorPathNoEvent THEN Range(StageCompletionEvent(c.e, "TERMINAL")) ELSE {})
   ELSE IF c.h = "SkipStage" /\ ~Defect_SkipEventBeforeCommit /\ c.e \in Stages /\ status[c.e] = "NOT_STARTED"
+          /\ tx[w].evs = <<>>
           THEN {E("stage.skipped", c.e, "")}
+  ELSE IF c.h = "CancelStage" /\ ~Defect_NoTaskCancelEvent /\ c.e \in Stages /\ status[c.e] \notin CompleteSt
+          /\ Len(tx[w].evs) < Len(CanceledTaskSeq(c.e))
+          THEN {E("task.completed", CanceledTaskSeq(c.e)[Len(tx[w].evs) + 1], "CANCELED")}
   ELSE {}
 
 AppendInTxn(w, e0) ==         \* EventRecorderBase._record with a scope: INSERT on the transaction's connection
-  /\ ~Idle(w) /\ cur[w].pc = "run" /\ tx[w].evs = <<>> /\ WriterFree(w)
+  /\ ~Idle(w) /\ cur[w].pc \in {"run", "appended"} /\ WriterFree(w)
   /\ e0 \in InTxnEvents(w)
   /\ LET e == Stamp(e0, NextSeq(w)) IN
-       /\ tx' = [tx EXCEPT ![w] = [open |-> TRUE, evs |-> <<e>>]]
+       /\ tx' = [tx EXCEPT ![w] = [open |-> TRUE, evs |-> Append(@.evs, e)]]
        /\ pend' = [pend EXCEPT ![w] = Append(@, e)]
   /\ SetCur(w, [cur[w] EXCEPT !.pc = "appended"])
   /\ act' = Label("AppendInTxn", w, FALSE)
